@@ -67,8 +67,11 @@ ASSUMPTIONS = [
     "(the statement fixes the middle half only)",
     "the trace is read through get_max_stockwell_freq on an AccSignal or Signal whose record has not been replaced since it was "
     "constructed (read once or twice; a second read goes through the `swtf` attribute cached by the first) and through "
-    "get_max_tifq_vals_freq on transform(x) or |transform(x)|.  An object whose values were replaced AFTER a first read "
-    "(reset_values) is a call history, not an input: staleness of derived attributes is C04's subject and is not asserted here",
+    "get_max_tifq_vals_freq on transform(x) or |transform(x)|.  History variant (half of the cases, finding C15-F1, fixed in "
+    "126b2f0): after the first read the object is given another on-grid cosine of the same length through reset_values (another "
+    "k0 in the statement's band, same amplitude / unit) and read again - the statement's last sentence speaks of the record the "
+    "object holds NOW, so the trace must equal the new k0/(n dt); reset_values is the representative of the mutators that go "
+    "through clear_cache",
 ]
 LD = np.longdouble
 CLD = np.clongdouble
@@ -376,17 +379,19 @@ def _dom_cases(draw):
     return {"len": length, "k0": k0, "phase": draw(st.floats(0.0, 2 * math.pi, allow_nan=False)),
             "amp": draw(gen.log_uniform(1e-6, 1e6)), "unit": draw(st.sampled_from([0, 0, 0, -600, -800, 560, 800])),
             "dt": draw(_DTS),
-            "obj": draw(st.sampled_from(["acc", "sig"])), "mag": draw(st.booleans()), "reads": draw(st.sampled_from([1, 1, 2]))}
+            "obj": draw(st.sampled_from(["acc", "sig"])), "mag": draw(st.booleans()), "reads": draw(st.sampled_from([1, 1, 2])),
+            "reset_k0": draw(st.one_of(st.none(), st.integers(2, kmax)))}
 
 
 @clause(CLAUSES, "dominant-frequency", _dom_cases(), quick=800, thorough=600,
         rule="x_t = A cos(2 pi k0 t/n + phase), length 6..128 (quick) / 6..1024 (thorough) odd and even, k0 uniform in "
              "[2, floor(0.75 n/2)] or at / near either end, A log-uniform [1e-6,1e6] (x 2^{0,-800,-600,560,800}), dt log-uniform "
-             "[1e-4,10] + repo rates | log-uniform [1e-9,1e6] | integer 1..3000; the object is read once or twice; non-trivial = n >= 8",
+             "[1e-4,10] + repo rates | log-uniform [1e-9,1e6] | integer 1..3000; the object is read once or twice and, in half of the cases, "
+             "given another on-grid cosine (reset_k0) through reset_values and read again; non-trivial = n >= 8",
         oracle="reference model (closed form from the statement): get_max_stockwell_freq(AccSignal|Signal) and "
                "get_max_tifq_vals_freq(transform(x) | |transform(x)|, dt) have n (or len(x)) entries and equal k0/(n dt) on samples "
                "ceil(n/4)..floor(3n/4), relative 1e-12",
-        require={"odd": 0.3, "even": 0.3, "k0=2": 0.05, "k0=kmax": 0.05, "k0>n/4": 0.1, "pow2": 0.05, "dt-int": 0.06,
+        require={"odd": 0.3, "even": 0.3, "k0=2": 0.05, "k0=kmax": 0.05, "k0>n/4": 0.1, "pow2": 0.05, "dt-int": 0.06, "history=reset_values": 0.25,
                  "dt>10": 0.04, "dt<1e-4": 0.03, "reads=2": 0.15},
         min_nontrivial=0.5)
 def dominant_frequency(case, ctx):
@@ -444,6 +449,20 @@ def _dominant(ctx, case, x):
         tifq = np.abs(tifq)
     _trace(ctx, ctx.lib(sw.get_max_tifq_vals_freq, tifq, dt), n, length, lo, hi, f0, tol,
            "get_max_tifq_vals_freq (k0=%d, n=%d)" % (k0, n))
+    k1 = case.get("reset_k0")
+    if k1 is not None:
+        # history (C15-F1): the object now holds ANOTHER on-grid cosine of the same length; the statement speaks of that record
+        k1 = int(k1)
+        if not 2 <= k1 <= (3 * n) // 8:
+            raise ValueError("case outside the domain")
+        ctx.cls("history=reset_values", "reset-same-k0" if k1 == k0 else None)
+        y = _cosine(dict(case, k0=k1, phase=float(case["phase"]) + 0.5))
+        ctx.lib(asig.reset_values, y)
+        f0 = LD(k1) / (LD(n) * LD(float(dt)))
+        tol = RTOL * float(f0)
+        for i in range(reads):
+            _trace(ctx, ctx.lib(sw.get_max_stockwell_freq, asig), n, length, lo, hi, f0, tol,
+                   "get_max_stockwell_freq after reset_values (read %d, k0 %d -> %d, n=%d)" % (i + 1, k0, k1, n))
     return asig, (n, length, lo, hi, f0, tol)
 
 
@@ -652,7 +671,8 @@ def _md_cases(tier):
                           "amp": float("%.6g" % math.exp(math.log(1e-6) + math.log(1e12) * _hu("amp", i, j))),
                           "unit": _hpick([0, 0, 0, -600, -800, 560, 800], "u", i, j), "dt": dt,
                           "obj": _hpick(["acc", "sig"], "obj", i, j), "mag": _hu("mag", i, j) < 0.5,
-                          "reads": _hpick([1, 2], "reads", i, j), "other_k0": int(2 + int((kmax - 1) * _hu("ok0", i, j)))})
+                          "reads": _hpick([1, 2], "reads", i, j), "other_k0": int(2 + int((kmax - 1) * _hu("ok0", i, j))),
+                          "reset_k0": int(2 + int((kmax - 1) * _hu("rk0", i, j))) if _hu("hist", i, j) < 0.5 else None})
     return cases
 
 
@@ -665,10 +685,12 @@ def _md_enum(tier, shard, nshards):
 @enum_clause(CLAUSES, "mid-range-dominant", _md_enum,
              rule="record lengths as in `mid-range` (own ladder), n or n+1 samples; k0 in {2, 3, kmax-1, kmax} + a ladder of 4 (thorough 8) "
                   "over [4, kmax-2]; phase, A in [1e-6,1e6] x 2^{0,-600,-800,560,800}, dt (repo rates | log-uniform [1e-9,1e6] | integer), "
-                  "Signal / AccSignal, complex array / magnitudes, one or two reads by hash of (VERIF_SEED, index)",
+                  "Signal / AccSignal, complex array / magnitudes, one or two reads, reset_values history in half of the cases by hash of "
+                  "(VERIF_SEED, index)",
              oracle="closed form k0/(n dt) on samples ceil(n/4)..floor(3n/4) (relative 1e-12) through get_max_stockwell_freq and "
                     "get_max_tifq_vals_freq; then a second, freshly constructed object of the same length with another on-grid frequency "
-                    "is read (its own closed form), and the first object - record unchanged - is read again",
+                    "is read (its own closed form), and the first object - record unchanged - is read again; history variant: reset_values "
+                    "with another on-grid cosine, then the closed form of the CURRENT record",
              exhaustive_note="deterministic size ladder x frequency ladder incl. both ends of the statement's band",
              min_nontrivial=0.9, quick_shards=4)
 def mid_range_dominant(case, ctx):
@@ -683,8 +705,8 @@ def mid_range_dominant(case, ctx):
     ctx.nt(True)
     first, (n, length, lo, hi, f0, tol) = _dominant(ctx, case, _cosine(case))
     # another record of the same length in a fresh object (a module-level cache keyed on the length would serve the first one)
-    other = dict(case, k0=int(case["other_k0"]), phase=float(case["phase"]) + 1.0, unit=0, reads=1)
+    other = dict(case, k0=int(case["other_k0"]), phase=float(case["phase"]) + 1.0, unit=0, reads=1, reset_k0=None)
     _dominant(ctx, other, _cosine(other))
-    # the first object again: its record has not been touched
+    # the first object again: its record has not been touched since its last read (f0 is the frequency it holds now)
     _trace(ctx, ctx.lib(sw.get_max_stockwell_freq, first), n, length, lo, hi, f0, tol,
-           "get_max_stockwell_freq (first object read again after another object was analysed, k0=%d, n=%d)" % (k0, n))
+           "get_max_stockwell_freq (first object read again after another object was analysed, n=%d)" % n)
